@@ -5,6 +5,7 @@ import AvroModel.Lemmas.EndToEnd
 import AvroModel.Lemmas.RoundTrip
 import AvroModel.Lemmas.NormSpec
 import AvroModel.Lemmas.ReadBudget
+import AvroModel.Props.C03
 /-!
 # C01 — Encode-then-read round trip preserves every record
 
@@ -288,6 +289,92 @@ example : ∃ r, read toyEnv 10 exCodec (exBytes ++ [255]) (Codec.zero toyEnv ex
     (by decide +kernel) (by rfl) (by decide +kernel)
     (by simp [RTOk, exCodec, exVal, FieldsOk, Codec.zero, inRange, Codec.ptrDepth])
     (ne_fuel_of (by decide +kernel))
+
+/-! ### Whole files, from Go values to Go values -/
+
+/-- a call history of the `Encoder` API at the level of Go values -/
+inductive GoOp where
+  | encode (g : GoVal)
+  | flush
+
+/-- the values passed to `Encode`, in call order -/
+def GoOp.values : List GoOp → List GoVal
+  | [] => []
+  | .encode g :: ops => g :: GoOp.values ops
+  | .flush :: ops => GoOp.values ops
+
+/-- the same history at the level of bytes: `Encode(g)` appends what `Codec.Write` writes for `g` -/
+def writtenOps (n : Nat) (c : Codec) : List GoOp → List EncOp
+  | [] => []
+  | .encode g :: ops => .encode ((write env n c g).getD []) :: writtenOps n c ops
+  | .flush :: ops => .flush :: writtenOps n c ops
+
+theorem encodings_writtenOps (n : Nat) (c : Codec) : ∀ gops : List GoOp,
+    encodings (writtenOps env n c gops) = (GoOp.values gops).map (fun g => (write env n c g).getD [])
+  | [] => rfl
+  | .encode g :: ops => by simp [writtenOps, encodings, GoOp.values, encodings_writtenOps n c ops]
+  | .flush :: ops => by simp [writtenOps, encodings, GoOp.values, encodings_writtenOps n c ops]
+
+/-- what the record decoder with budget `N` makes of the bytes `r` (on their own) -/
+def decOf (N : Nat) (c : Codec) (r : Bytes) : GoVal :=
+  match read env N c r (Codec.zero env c) with
+  | .ok (g, _) => g
+  | _ => Codec.zero env c
+
+/-- **C01, whole files, values.** `c` is a codec the library builds for schema `s`; `gops` is ANY history
+of `Encode(g)` / `Flush` calls on Go values, closed by a final `Flush`; the file is what the encoder
+model writes for it (any block size, any compressor the reader's decompressor undoes, sync marker
+equal to the header's). Every written value `g` is well-typed for `c` (`write` succeeds), denotes a
+datum `v` (`toAvro`) that the specification can encode under `s` (the value is within the schema
+type's range) and satisfies the side conditions `RTOk` of `value_roundtrip`. The reader decodes
+records with `Codec.Read` into a zeroed destination with ONE fixed step budget `N`, at least
+`readBudget c v` for every written datum. Then `readFile` succeeds and delivers, in call order,
+exactly `normCodec … g` for every written `g` (see `value_roundtrip` for what `normCodec` is).
+No hypothesis mentions the file's bytes, `.fuel` or the decodability of anything; `hsmall`, `hn`,
+`hn63` are the representability limits of `file_roundtrip` (block payload length, number of records). -/
+theorem file_value_roundtrip {ε : Type} (cfg : EncCfg) (c : Codec) (s : ASchema) (hcf : CodecFor c s)
+    (n m m' N : Nat) (gops : List GoOp)
+    (hval : ∀ g ∈ GoOp.values gops, ∃ bs v bs', write env n c g = some bs ∧
+      toAvro env (omits env) m c g = some v ∧ encode (canonPlan v) s v = some bs' ∧ RTOk env m' c g ∧
+      readBudget c v ≤ N)
+    {X : File.Ext GoVal} {fuel : Nat} {H : File.Header} {sel : File.CodecSel}
+    (hh : File.ValidHeader X fuel cfg.header H sel (C03.recDecoder env N c)) (hs : H.sync = cfg.sync)
+    (hcomp : ∀ x, File.decompress X sel (cfg.compress x) = .ok x)
+    (hsmall : ∀ blk ∈ (specPart cfg.blockSize (writtenOps env n c gops ++ [.flush]) []).1,
+      (cfg.compress blk.flatten).length ≤ File.maxLen)
+    (hn : (GoOp.values gops).length < fuel) (hn63 : (GoOp.values gops).length < 2 ^ 63)
+    (cb : Nat → Option ε) (hcb : ∀ i, cb i = none) :
+    ∃ s' w', encRun cfg {} (writtenOps env n c gops ++ [.flush]) = (s', w', none) ∧ s'.count = 0 ∧ s'.wb = [] ∧
+      File.readFile X fuel cb w'.accepted = ⟨(GoOp.values gops).map (normCodec env m' c), .ok⟩ := by
+  have hlen : (encodings (writtenOps env n c gops)).length = (GoOp.values gops).length := by
+    rw [encodings_writtenOps]; simp
+  -- every written record is decoded exactly, whatever follows it
+  have hrec : ∀ g ∈ GoOp.values gops, ∀ rest,
+      read env N c ((write env n c g).getD [] ++ rest) (Codec.zero env c) = .ok (normCodec env m' c g, rest) := by
+    intro g hg rest
+    obtain ⟨bs, v, bs', hw, ht, he, hok, hb⟩ := hval g hg
+    rw [hw]
+    exact value_roundtrip_budget env c s hcf n N m m' g bs bs' rest v hw ht he hok hb
+  have hdecOf : ∀ g ∈ GoOp.values gops, decOf env N c ((write env n c g).getD []) = normCodec env m' c g := by
+    intro g hg
+    have := hrec g hg []
+    rw [List.append_nil] at this
+    simp only [decOf, this]
+  obtain ⟨s', w', hrun, hc0, hwb, hread⟩ :=
+    file_roundtrip (ε := ε) cfg (writtenOps env n c gops) hh hs hcomp hsmall (decOf env N c)
+      (by
+        intro r hr rest
+        rw [encodings_writtenOps] at hr
+        obtain ⟨g, hg, rfl⟩ := List.mem_map.mp hr
+        show read env N c _ _ = _
+        rw [hrec g hg rest, hdecOf g hg])
+      (by rw [hlen]; exact hn) (by rw [hlen]; exact hn63) cb hcb
+  refine ⟨s', w', hrun, hc0, hwb, ?_⟩
+  rw [hread, encodings_writtenOps, List.map_map]
+  congr 1
+  apply List.map_congr_left
+  intro g hg
+  exact hdecOf g hg
 
 /-- non-vacuity of `value_roundtrip_exact_budget` / `value_roundtrip_spec_budget` -/
 example (rest : Bytes) : read toyEnv 27 exCodec (exBytes ++ rest) (Codec.zero toyEnv exCodec) = .ok (exValPlain, rest) := by
